@@ -147,7 +147,7 @@ def _defs_positive(f: FuncInfo, name: str) -> bool:
     return True
 
 
-@rule("R-NEGSLICE", floor=1, witness_min=1)  # floor counts computed-count slices of either sign
+@rule("R-NEGSLICE", floor=0, witness_min=1)  # floor counts computed-count slices of either sign
 def r_negslice(ctx: RuleCtx, col: Collector):
     """A slice bound `-n` with a computed count n that may be 0: `a[-n:]` then selects *everything* and `a[:-n]`
     nothing.  n must be a positive constant or the slice must be dominated by a test implying n >= 1."""
@@ -759,6 +759,20 @@ def r_count_floor(ctx: RuleCtx, col: Collector):
                 positional = x
             elif any(k in txt for k in ("np.partition(", "np.sort(", "sorted(", ".sort(")) and not isinstance(x.slice, ast.Slice):
                 threshold = x
+        # ... or compares it with the *rank* of every entry (the inverse of the sorting permutation): rank >= n
+        if positional is None and threshold is None:
+            for x in ast.walk(f.node):
+                if not (isinstance(x, ast.Compare) and len(x.ops) == 1 and cn in {y.id for y in ast.walk(x) if isinstance(y, ast.Name)}):
+                    continue
+                for side in [x.left] + list(x.comparators):
+                    if isinstance(side, ast.Name) and side.id != cn:
+                        inv = any(isinstance(d, ast.Assign) and isinstance(d.targets[0], ast.Subscript) and norm(d.targets[0].value) == side.id
+                                  and "argsort(" in norm(d.targets[0].slice) and "arange(" in norm(d.value) for d in ast.walk(f.node)) or \
+                            any(isinstance(d, ast.Assign) and norm(d.targets[0]) == side.id and
+                                ("argsort(np.argsort(" in norm(d.value) or ".argsort().argsort()" in norm(d.value) or "rankdata(" in norm(d.value))
+                                for d in ast.walk(f.node))
+                        if inv:
+                            positional = x
         construct = f"AggActiveSet: '{cn}' entries selected by position"
         if threshold is not None:
             col.bad(where_of(f), f.rel, line_of(threshold), construct,
@@ -766,7 +780,9 @@ def r_count_floor(ctx: RuleCtx, col: Collector):
                     f"values tie at the cut-off a different number of entries (possibly none) is removed than "
                     f"floor(n*fraction)")
         elif positional is not None:
-            col.ok(where_of(f), f.rel, line_of(positional), construct, f"slice of the sorting permutation '{norm(positional)}'")
+            col.ok(where_of(f), f.rel, line_of(positional), construct,
+                   (f"slice of the sorting permutation '{norm(positional)}'" if isinstance(positional, ast.Subscript)
+                    else f"comparison with the rank of each entry '{norm(positional)}'"))
         else:
             raise AnalysisError(f"AggActiveSet.__call__: cannot tell how the count '{cn}' selects entries")
 
